@@ -24,7 +24,7 @@ def de_casteljau(P:list, t:float):
     for j in range(order):
         for i in range(order - j):
             coeffs[i] = t*coeffs[i+1] + (1-t)*coeffs[i]
-    return coeffs[0]
+    return Vec(coeffs[0]).copy() # a curve of order 0 would otherwise hand out its own control point
 
 
 class BezierCurve:
